@@ -11,6 +11,8 @@ are valid for the real code; obligations that fail because of havoc are reported
 undecided, never as violations (DESIGN.md section 2).
 """
 import ast
+import os
+import sys
 import builtins
 import inspect
 import types
@@ -128,8 +130,10 @@ class Engine(object):
         if guard is not None and not z3.is_true(guard):
             goal = z3.Implies(guard, goal)
         g = simp(goal)
-        if z3.is_true(g):
+        if z3.is_true(g) and kind != 'ensures':
             return
+        # (an ensures clause that simplifies to True is still recorded: the set of obligation
+        # keys of a function must not depend on how much the simplifier happens to decide)
         c = self.cur_contract
         self.obligations.append(Oblig(
             name='%s/%s@L%s' % (self.cur.qualname if self.cur else '?', clause, lineno),
@@ -158,6 +162,12 @@ class Engine(object):
         cache = self.__dict__.setdefault('_decide_cache', {})
         if key in cache:
             return cache[key][0]
+        q = self.quick_decide(st, c)
+        if os.environ.get('PYVC_DECDBG'):
+            print('   decide quick=%s pc=%d %s' % (q, len(st.pc), str(c)[:150].replace('\n', ' ')), file=sys.stderr)
+        if q is not None:
+            cache[key] = (q, c, tuple(st.pc))
+            return q
         if not self.feasible(st, z3.Not(c)):
             r = True
         elif not self.feasible(st, c):
@@ -167,6 +177,71 @@ class Engine(object):
         # keep the terms alive: z3 recycles AST ids of collected terms
         cache[key] = (r, c, tuple(st.pc))
         return r
+
+    @staticmethod
+    def lit_key(l):
+        """(polarity, atom key): equalities are keyed symmetrically (z3.simplify does not orient them)"""
+        pol = True
+        while z3.is_not(l):
+            pol = not pol
+            l = l.arg(0)
+        if z3.is_eq(l):
+            a, b = l.arg(0).get_id(), l.arg(1).get_id()
+            return pol, ('eq', min(a, b), max(a, b))
+        return pol, ('t', l.get_id())
+
+    def pc_units(self, st):
+        """literals that occur as top-level conjuncts of the path condition"""
+        fc = self.__dict__.setdefault('_units_cache', {})
+        out = set()
+        for f in st.pc:
+            e = fc.get(f.get_id())
+            if e is None or not e[0].eq(f):
+                lits = []
+                todo = [simp(f)]
+                while todo:
+                    g = todo.pop()
+                    if z3.is_and(g):
+                        todo.extend(g.children())
+                    else:
+                        lits.append(g)
+                e = (f, lits, [self.lit_key(l) for l in lits])
+                fc[f.get_id()] = e
+            out.update(e[2])
+        return out
+
+    def quick_decide(self, st, c, units=None, depth=0):
+        """syntactic unit propagation against the path condition (no solver): True / False / None"""
+        if units is None:
+            units = self.pc_units(st)
+        if z3.is_true(c):
+            return True
+        if z3.is_false(c):
+            return False
+        pol, k = self.lit_key(c)
+        if (pol, k) in units:
+            return True
+        if (not pol, k) in units:
+            return False
+        if depth >= 3:
+            return None
+        if z3.is_and(c) or z3.is_or(c):
+            vals = [self.quick_decide(st, ch, units, depth + 1) for ch in c.children()]
+            if z3.is_and(c):
+                if any(v is False for v in vals):
+                    return False
+                if all(v is True for v in vals):
+                    return True
+            else:
+                if any(v is True for v in vals):
+                    return True
+                if all(v is False for v in vals):
+                    return False
+        elif z3.is_not(c):
+            v = self.quick_decide(st, c.arg(0), units, depth + 1)
+            if v is not None:
+                return not v
+        return None
 
     def feasible(self, st, cond):
         """is pc /\\ cond satisfiable?  unknown counts as feasible."""
@@ -183,6 +258,11 @@ class Engine(object):
             fs = fs + self.axioms_fn(fs, light=True)
         s.add(*fs)
         r = s.check()
+        if r == z3.unknown:
+            self.nfeas_unknown = getattr(self, 'nfeas_unknown', 0) + 1
+            if os.environ.get('PYVC_FEASDBG'):
+                print('   feasible: unknown (%s) for %s' % (s.reason_unknown(), str(c)[:200].replace('\n', ' ')),
+                      file=sys.stderr)
         return r != z3.unsat
 
 
@@ -574,7 +654,9 @@ class Pure(object):
                 dec = self.eng.decide(self.st, z3.Implies(self.guard, c)) if self.spec else None
                 if dec is True:
                     return self.run_body(list(s.body) + rest)
-                if dec is None and self.spec and self.eng.decide(self.st, z3.Implies(self.guard, z3.Not(c))) is True:
+                if dec is False or (dec is None and self.spec
+                                    and self.eng.decide(self.st, z3.Implies(self.guard, z3.Not(c))) is True):
+                    # (decide False: the path condition entails guard and not c)
                     return self.run_body(list(s.orelse) + rest)
                 pa = Pure(self.eng, self.st, dict(self.env), self.glob, True,
                           z3.And(self.guard, c), self.lineno)
@@ -1398,6 +1480,18 @@ class PathExec(object):
                     yield st2, v
                 else:
                     st2.calls[id(node)] = v
+                    ctf = frame.contract
+                    if ctf is not None and (ctf.ghost or ctf.post_hints) and isinstance(node.func, ast.Name):
+                        # ghost name for the (latest) result of a call: usable by ghost code / post_hints
+                        st2.env['g_call_' + node.func.id] = v
+                        cur = getattr(frame, 'cur_ghost_stmt', None)
+                        when = 'call:' + node.func.id
+                        if cur is not None and ((cur[0], cur[1], when) in ctf.ghost or (cur[0], None, when) in ctf.ghost):
+                            # ghost code right after this call returned (before the enclosing
+                            # expression continues): may case-split on g_call_<name>
+                            for st3 in self.ghost_at(ctf, cur[0], cur[1], when, [st2], frame, cur[2]):
+                                yield st3, None
+                            continue
                     yield st2, None
 
     # ------------------------------------------------------------------ calls
@@ -1626,9 +1720,16 @@ class PathExec(object):
         k = st.ghostcount.get(text, 0)
         st.ghostcount[text] = k + 1
         for st0 in self.ghost_at(ct, text, k, 'before', [st], frame, s.lineno):
+            frame.cur_ghost_stmt = (text, k, s.lineno)
             for st1, sig, val in m(s, st0, frame):
                 if sig == NEXT:
                     for st2 in self.ghost_at(ct, text, k, 'after', [st1], frame, s.lineno):
+                        yield st2, sig, val
+                elif sig == RET and isinstance(s, ast.Return) and ((text, k, 'result') in ct.ghost
+                                                                   or (text, None, 'result') in ct.ghost):
+                    # ghost code at the return point: sees g_result and the g_call_* results
+                    st1.env['g_result'] = val
+                    for st2 in self.ghost_at(ct, text, k, 'result', [st1], frame, s.lineno):
                         yield st2, sig, val
                 else:
                     yield st1, sig, val
